@@ -26,7 +26,8 @@ CONSTANTS Callers,      \* set of caller ids
           None
 
 VARIABLES cfg,      \* [T, tries, bufcap, v4, xid : [Callers -> Xids], urgent, timed, maxCalls, wfault,
-                    \*  cancelChecksIdentity, timerPerIteration, timeoutCarriesOver, writeErrKeepsEntry, fireRegisters]   (never changes)
+                    \*  rfault, cancelChecksIdentity, timerPerIteration, timeoutCarriesOver, writeErrKeepsEntry, fireRegisters,
+                    \*  readErrEndsCalls, loopSurvivesClose]   (never changes)
           cs,       \* caller state: [Callers -> record]
           ents,     \* sequence of pending-map entries ever created:
                     \*   [ch, closed, done, owner, xid, hist]
@@ -198,10 +199,20 @@ LoopRead ==
     /\ net' = Tail(net) /\ rxn' = rxn + 1
     /\ lp' = IF Dropped(Head(net)) THEN lp ELSE [pc |-> "prelock", msg |-> Head(net)]
     /\ UNCHANGED <<cfg, cs, ents, pending, cl, dgs, ctxDone, now>>
+\* ReadFrom fails because the connection has been closed - whatever error the connection reports then: the loop ends.
+\* (loopSurvivesClose is the wrong design in which the loop goes on unless it recognises the error)
 LoopExit ==
-    /\ lp.pc = "read" /\ cl.connClosed
+    /\ lp.pc = "read" /\ cl.connClosed /\ ~cfg.loopSurvivesClose
     /\ lp' = [pc |-> "exited", msg |-> 0]
     /\ UNCHANGED <<cfg, cs, ents, pending, cl, net, dgs, rxn, ctxDone, now>>
+\* ReadFrom fails on an open connection (ICMP port unreachable, interface down, a frame the raw layer cannot read): the
+\* loop ends (a step of the environment, like the arrival of a datagram), and that is all - calls in flight and later calls get no answers any more, they keep their schedule and
+\* their outcomes; Close still returns.  (readErrEndsCalls is the wrong design in which the loop releases the callers.)
+LoopReadErr ==
+    /\ lp.pc = "read" /\ ~cl.connClosed /\ cfg.rfault
+    /\ lp' = [pc |-> "exited", msg |-> 0]
+    /\ cl' = IF cfg.readErrEndsCalls THEN [cl EXCEPT !.doneClosed = TRUE] ELSE cl
+    /\ UNCHANGED <<cfg, cs, ents, pending, net, dgs, rxn, ctxDone, now>>
 \* take the lock and look the transaction up
 LoopLock ==
     /\ lp.pc = "prelock"
@@ -315,6 +326,8 @@ CtxPrompt == (cfg.timed /\ cfg.urgent) =>
 ClosePrompt == (cfg.timed /\ cfg.urgent) =>
                 \A c \in Callers : (Active(c) /\ cl.doneClosed) => now = Max2(cl.closeAt, cs[c].start)
 CloseStopsLoop == cl.closer = "returned" => lp.pc = "exited"
+\* calls are released early by Close and by nothing else
+DoneOnlyByClose == cl.doneClosed => cl.closer \in {"waiting", "returned"}
 \* C12 -- retransmission schedule
 Schedule == (cfg.timed /\ cfg.urgent) =>
                 \A c \in Callers : \A i \in DOMAIN cs[c].txs :
